@@ -8,6 +8,8 @@
 //!   get <k> / cancel <k>               k = ordinal of the query/queryraw op in the case
 //!   poll <us>                          Interface::poll at max(now, us)
 //!   ppoll <d>                          Interface::poll at max(now, poll_at + d) (now + 1 s if no deadline)
+//!   servers <hex,hex|->               update_servers (any time, also while queries are pending)
+//!   hop <n|none>                       set_hop_limit(Some(n) / None); 0 panics by contract
 //!   rsp k=<k> pk=<j> pd=<d> src=<addr hex> sport=<n> data=<hex|->
 //!        datagram = data with bytes 0..2 XOR txid of query k, sent to port(query j) + pd
 //! Transaction ids / ports are random in the implementation: they are learnt from a shadow
@@ -143,7 +145,7 @@ fn udp_frame(src: &[u8], dst: &[u8], sport: u16, dport: u16, payload: &[u8]) -> 
 
 #[derive(Clone, Debug)]
 enum Frame {
-    Udp { dst: Vec<u8>, sport: u16, dport: u16, payload: Vec<u8> },
+    Udp { dst: Vec<u8>, sport: u16, dport: u16, hop: u8, payload: Vec<u8> },
     Icmp,
     Other,
 }
@@ -152,15 +154,15 @@ fn parse_frame(f: &[u8]) -> Frame {
     if f.is_empty() {
         return Frame::Other;
     }
-    let (proto, dst, body): (u8, Vec<u8>, &[u8]) = match f[0] >> 4 {
+    let (proto, dst, hop, body): (u8, Vec<u8>, u8, &[u8]) = match f[0] >> 4 {
         4 if f.len() >= 20 => {
             let ihl = ((f[0] & 15) as usize) * 4;
             if f.len() < ihl {
                 return Frame::Other;
             }
-            (f[9], f[16..20].to_vec(), &f[ihl..])
+            (f[9], f[16..20].to_vec(), f[8], &f[ihl..])
         }
-        6 if f.len() >= 40 => (f[6], f[24..40].to_vec(), &f[40..]),
+        6 if f.len() >= 40 => (f[6], f[24..40].to_vec(), f[7], &f[40..]),
         _ => return Frame::Other,
     };
     match proto {
@@ -168,6 +170,7 @@ fn parse_frame(f: &[u8]) -> Frame {
             dst,
             sport: u16::from_be_bytes([body[0], body[1]]),
             dport: u16::from_be_bytes([body[2], body[3]]),
+            hop,
             payload: body[8..].to_vec(),
         },
         1 | 58 => Frame::Icmp,
@@ -236,6 +239,7 @@ struct Tx {
     k: Option<usize>,
     dst: Vec<u8>,
     dport: u16,
+    hop: u8,
     dns: Vec<u8>, // id bytes XOR txid of query k (or raw when k unknown)
 }
 
@@ -248,6 +252,8 @@ enum Obs {
     Poll { t: i64, txs: Vec<Tx>, other: usize },
     Rsp { acc: bool, k: usize, pk: usize, pd: i64, src: Vec<u8>, sport: u16, data: Vec<u8> },
     PollAt(Option<i64>),
+    Servers(Vec<Vec<u8>>),
+    Hop(Option<u8>, String),
     Bad(String),
 }
 
@@ -267,10 +273,11 @@ fn fmt_obs(o: &Obs) -> String {
             let mut s = String::new();
             for t in txs {
                 s.push_str(&format!(
-                    "tx k={} dst={} dport={} dns={}\n",
+                    "tx k={} dst={} dport={} hop={} dns={}\n",
                     t.k.map(|k| k.to_string()).unwrap_or("?".into()),
                     hex(&t.dst),
                     t.dport,
+                    t.hop,
                     hex(&t.dns)
                 ));
             }
@@ -282,6 +289,8 @@ fn fmt_obs(o: &Obs) -> String {
             Some(t) => format!("pollat {}", t),
             None => "pollat none".into(),
         },
+        Obs::Servers(_) => "servers".into(),
+        Obs::Hop(_, s) => format!("hop {}", s),
         Obs::Bad(s) => format!("bad {}", s),
     }
 }
@@ -448,7 +457,7 @@ fn exec_case(c: &Case) -> Vec<Obs> {
                 let mut other = 0;
                 for f in st.dev.drain_tx() {
                     match parse_frame(&f) {
-                        Frame::Udp { dst, sport, dport, payload } => {
+                        Frame::Udp { dst, sport, dport, hop, payload } => {
                             let id = if payload.len() >= 2 { u16::from_be_bytes([payload[0], payload[1]]) } else { 0 };
                             let k = table.iter().position(|e| *e == Some((id, sport)) && payload.len() >= 2);
                             let mut d = payload.clone();
@@ -456,12 +465,24 @@ fn exec_case(c: &Case) -> Vec<Obs> {
                                 d[0] = 0;
                                 d[1] = 0;
                             }
-                            txs.push(Tx { k, dst, dport, dns: d });
+                            txs.push(Tx { k, dst, dport, hop, dns: d });
                         }
                         _ => other += 1,
                     }
                 }
                 obs.push(Obs::Poll { t: now, txs, other });
+            }
+            "servers" => {
+                let l: Vec<IpAddress> = parse_servers(t[1]).iter().map(|b| ipaddr(b)).collect();
+                let r = catch(AssertUnwindSafe(|| st.sockets.get_mut::<dns::Socket>(st.h).update_servers(&l)));
+                obs.push(if r.is_some() { Obs::Servers(parse_servers(t[1])) } else { Obs::Bad("PANIC".into()) });
+            }
+            "hop" => {
+                let v: Option<u8> = if t[1] == "none" { None } else { Some(t[1].parse().unwrap()) };
+                let r = catch(AssertUnwindSafe(|| st.sockets.get_mut::<dns::Socket>(st.h).set_hop_limit(v)));
+                let got = st.sockets.get_mut::<dns::Socket>(st.h).hop_limit();
+                let g = got.map(|x| x.to_string()).unwrap_or("none".into());
+                obs.push(Obs::Hop(v, format!("{} get={}", if r.is_some() { "ok" } else { "PANIC" }, g)));
             }
             "rsp" => {
                 let k: usize = kv(&t, "k").unwrap().parse().unwrap();
@@ -996,7 +1017,12 @@ fn gen_case(rng: &mut Rng, id: String, tier: &str) -> Case {
             let pk = if rng.chance(1, 15) { rng.below(qs.len() as u64) as usize } else { k };
             no_ptr_to_id(&mut b.data);
             ops.push(rsp_line(k, pk, &b));
-        } else if r < 95 {
+        } else if r < 88 {
+            let l = gen_servers(rng);
+            ops.push(format!("servers {}", if l.is_empty() { "-".to_string() } else { l.iter().map(|x| hex(x)).collect::<Vec<_>>().join(",") }));
+        } else if r < 90 {
+            ops.push(format!("hop {}", *rng.pick(&["none", "0", "1", "64", "255", "7", "0", "128"])));
+        } else if r < 96 {
             let extra = if rng.chance(1, 20) { 1 } else { 0 };
             ops.push(format!("get {}", rng.below(qs.len() as u64 + extra)));
         } else {
@@ -1068,7 +1094,23 @@ fn gen_oracle_case(rng: &mut Rng, id: String) -> Case {
             // no (matching) answers, polls exactly at poll_at: failure within the bound
             ops.push(format!("poll {}", t0));
             let noise = rng.chance(1, 2);
+            // half of the timing scenarios change the server list / hop limit while the query is pending
+            let upd = rng.chance(1, 2);
             for _ in 0..60 {
+                if upd && rng.chance(1, 5) {
+                    let l: Vec<Vec<u8>> = match rng.below(8) {
+                        0 => vec![],
+                        1 => vec![SRV4B.to_vec()],
+                        2 => vec![SRV6.to_vec()],
+                        3 => vec![SRV4A.to_vec(), SRV4B.to_vec(), SRV6.to_vec()],
+                        4 => vec![vec![0, 0, 0, 0]],
+                        _ => vec![SRV4A.to_vec()],
+                    };
+                    ops.push(format!("servers {}", if l.is_empty() { "-".to_string() } else { l.iter().map(|x| hex(x)).collect::<Vec<_>>().join(",") }));
+                }
+                if upd && rng.chance(1, 10) {
+                    ops.push(format!("hop {}", *rng.pick(&["none", "0", "1", "255", "33"])));
+                }
                 if noise && rng.chance(1, 4) {
                     let viol = *rng.pick(&[Viol::Id, Viol::DstPort, Viol::SrcAddr, Viol::SrcPort]);
                     let b = build_response(rng, &labels, ty, &server, viol, 4);
@@ -1077,7 +1119,7 @@ fn gen_oracle_case(rng: &mut Rng, id: String) -> Case {
                 ops.push("ppoll 0".into());
             }
             ops.push("get 0".into());
-            Case { id, cfg: base_cfg(rng, &servers, "timing".into()), ops }
+            Case { id, cfg: base_cfg(rng, &servers, if upd { "timing-upd".into() } else { "timing".into() }), ops }
         }
         _ => {
             // robustness: right id / port, arbitrary damage
@@ -1116,7 +1158,10 @@ fn oracle_case(c: &Case, fails: &mut Vec<String>, stats: &mut BTreeMap<String, u
     let maxsrv = smoltcp::config::DNS_MAX_SERVER_COUNT;
     let servers: Vec<Vec<u8>> = servers.into_iter().take(maxsrv).collect();
     // --- generic checks on any trace
-    let mut rsps: Vec<(usize, usize, i64, Vec<u8>, u16, Vec<u8>)> = vec![];
+    let mut rsps: Vec<(usize, usize, i64, Vec<u8>, u16, Vec<u8>, bool)> = vec![];
+    let mut cur_servers: Vec<Vec<u8>> = servers.clone();
+    let mut cur_hop: u8 = 64;
+    let mut cur_hop_set = false;
     let mut last_now: i64 = 0;
     let mut first_tx: BTreeMap<usize, i64> = BTreeMap::new();
     let mut tx_times: BTreeMap<usize, Vec<(i64, Vec<u8>)>> = BTreeMap::new();
@@ -1131,10 +1176,34 @@ fn oracle_case(c: &Case, fails: &mut Vec<String>, stats: &mut BTreeMap<String, u
                     aliased = true; // cancelled some later query through a stale handle
                 }
             }
-            Obs::Rsp { k, pk, pd, src, sport, data, .. } => rsps.push((*k, *pk, *pd, src.clone(), *sport, data.clone())),
+            Obs::Rsp { k, pk, pd, src, sport, data, acc } => {
+                let src_ok = (*sport == 53 && cur_servers.iter().any(|s| s == src)) || *sport == 5353;
+                if *acc != src_ok && !src.iter().all(|x| *x == 0) {
+                    fail("routing-to-dns-socket-differs", format!("src={} sport={} accepted={} expected={}", hex(src), sport, acc, src_ok));
+                }
+                rsps.push((*k, *pk, *pd, src.clone(), *sport, data.clone(), src_ok))
+            }
+            Obs::Servers(l) => cur_servers = l.iter().take(maxsrv).cloned().collect(),
+            Obs::Hop(v, s) => {
+                if *v == Some(0) {
+                    // documented: panics, and nothing is stored
+                    let want = format!("PANIC get={}", if cur_hop_set { cur_hop.to_string() } else { "none".into() });
+                    if *s != want {
+                        fail("hop-limit-zero-accepted", format!("set_hop_limit(Some(0)) -> `{}` (expected `{}`)", s, want));
+                    }
+                } else if s.starts_with("ok") {
+                    cur_hop = v.unwrap_or(64);
+                    cur_hop_set = v.is_some();
+                } else {
+                    fail("panic", format!("set_hop_limit({:?}) panicked", v));
+                }
+            }
             Obs::Poll { t, txs, .. } => {
                 last_now = *t;
                 for x in txs {
+                    if x.hop == 0 || x.hop != cur_hop {
+                        fail("query-hop-limit-wrong", format!("query transmitted with hop limit {} (configured {})", x.hop, cur_hop));
+                    }
                     if let Some(k) = x.k {
                         first_tx.entry(k).or_insert(*t);
                         tx_times.entry(k).or_default().push((*t, x.dst.clone()));
@@ -1170,13 +1239,12 @@ fn oracle_case(c: &Case, fails: &mut Vec<String>, stats: &mut BTreeMap<String, u
                     fail("completed-without-addresses", format!("query {} completed with an empty list", k));
                 }
                 // some delivered datagram must satisfy the source / port / id clauses and contain the addresses
-                let ok = rsps.iter().any(|(rk, rpk, pd, src, sport, data)| {
-                    let src_ok = (*sport == 53 && servers.iter().any(|s| s == src)) || *sport == 5353;
-                    src_ok && rk == k && rpk == k && *pd == 0 && data.len() >= 12 && data[0] == 0 && data[1] == 0 && data[2] & 0x80 != 0
+                let ok = rsps.iter().any(|(rk, rpk, pd, _src, _sport, data, src_ok)| {
+                    *src_ok && rk == k && rpk == k && *pd == 0 && data.len() >= 12 && data[0] == 0 && data[1] == 0 && data[2] & 0x80 != 0
                         && addrs.iter().all(|a| contains_bytes(&data[12..], a))
                 });
                 if !ok {
-                    let any_src_bad = rsps.iter().any(|(_, _, _, src, sport, _)| !((*sport == 53 && servers.iter().any(|s| s == src)) || *sport == 5353));
+                    let any_src_bad = rsps.iter().any(|(_, _, _, _, _, _, ok)| !*ok);
                     fail(
                         "answer-accepted-from-nonmatching-datagram",
                         format!("query {} completed with {:?} but no delivered datagram has an accepted source, its port, its id and these addresses (some datagram had a bad source: {})", k, addrs.iter().map(|a| hex(a)).collect::<Vec<_>>(), any_src_bad),
@@ -1196,15 +1264,6 @@ fn oracle_case(c: &Case, fails: &mut Vec<String>, stats: &mut BTreeMap<String, u
             Some(GetR::Failed) => fail(&format!("nonmatching-response-failed-query-{}", slug), format!("a response with {} (rcode != NXDomain) made the query fail", slug)),
             Some(GetR::Pending) => *stats.entry("clause_ignored".into()).or_default() += 1,
             other => fail("oracle-scenario-broken", format!("{:?}", other)),
-        }
-        // the socket sees the datagram iff the source is acceptable
-        for o in &obs {
-            if let Obs::Rsp { acc, src, sport, .. } = o {
-                let want = (*sport == 53 && servers.iter().any(|s| s == src)) || *sport == 5353;
-                if *acc != want {
-                    fail("routing-to-dns-socket-differs", format!("src={} sport={} accepted={} expected={}", hex(src), sport, acc, want));
-                }
-            }
         }
     } else if let Some(exp) = ora.strip_prefix("valid:") {
         let exp: Vec<Vec<u8>> = if exp == "-" { vec![] } else { exp.split(',').map(unhex).collect() };
@@ -1228,10 +1287,11 @@ fn oracle_case(c: &Case, fails: &mut Vec<String>, stats: &mut BTreeMap<String, u
             }
             other => fail("matching-answer-unexpected-result", format!("{:?}", other)),
         }
-    } else if ora == "timing" {
+    } else if ora == "timing" || ora == "timing-upd" {
+        let upd = ora == "timing-upd";
         // property text: retransmit with back-off, next server after 10 s, bounded failure
         let is_mdns = tx_times.get(&0).map(|v| v.iter().any(|(_, d)| d[0] == 0xff || d[0] == 224)).unwrap_or(false);
-        let nsrv = if is_mdns { 2 } else { servers.len() } as i64;
+        let nsrv = if is_mdns { 2 } else if upd { maxsrv } else { servers.len() } as i64;
         let t_first = first_tx.get(&0).copied();
         match (&final_get, t_first) {
             (Some(GetR::Failed), Some(t1)) => {
@@ -1260,7 +1320,7 @@ fn oracle_case(c: &Case, fails: &mut Vec<String>, stats: &mut BTreeMap<String, u
             (Some(GetR::Failed), None) => {}
             (other, _) => fail("oracle-scenario-broken", format!("{:?}", other)),
         }
-        if let Some(v) = tx_times.get(&0) {
+        if let (Some(v), false) = (tx_times.get(&0), upd) {
             // per destination: gaps at least 1 s and non-decreasing; a new destination no later than 10 s after the first transmission to the previous one
             let mut i = 0;
             let mut prev_first: Option<i64> = None;
